@@ -37,16 +37,20 @@ CONSTANTS MapNK, SetNK,   \* number of keys of the map / set flavour
           Vals,           \* values of the map flavour (strings, "" included)
           Flavours,       \* subset of {"map", "set"}
           EmptyEncs,      \* how the empty value is handed to Set: subset of {"empty", "nil"}
-          Modes           \* subset of {"full", "lazy"}
+          Modes,          \* subset of {"full", "lazy"}
+          KeyAlphabets    \* subset of {"trie", "nested"}
 VARIABLES cfg, cur, com, ever, fresh, ev
 vars == <<cfg, cur, com, ever, fresh, ev>>
 View == <<cfg, cur, com, ever, fresh>>
 
+\* ka = the real keys the adapter uses for key ids 1..4: "trie" = two-byte keys whose hashed paths share long prefixes (extension
+\* nodes of the trie), "nested" = "a", "ab", "" (the empty key), "abc" - raw keys that are byte prefixes of one another (the
+\* contents must not depend on how the keys relate as byte strings; the model does not look at ka at all)
 MapCfgs == IF "map" \in Flavours
-             THEN {[flavour |-> "map", nk |-> MapNK, obs |-> o] : o \in Modes}
+             THEN {[flavour |-> "map", nk |-> MapNK, obs |-> o, ka |-> a] : o \in Modes, a \in KeyAlphabets}
              ELSE {}
 SetCfgs == IF "set" \in Flavours
-             THEN {[flavour |-> "set", nk |-> SetNK, obs |-> o] : o \in Modes}
+             THEN {[flavour |-> "set", nk |-> SetNK, obs |-> o, ka |-> a] : o \in Modes, a \in KeyAlphabets}
              ELSE {}
 Cfgs == MapCfgs \cup SetCfgs
 
